@@ -4,7 +4,10 @@ import json, os, sys
 ROOT = os.path.dirname(os.path.abspath(__file__))
 sys.path.insert(0, ROOT)
 from checkcfg import PROPS
-from manifest_text import TEXT, NOT_APPLICABLE, HOOK_COMMITS
+from manifest_text import TEXT, NOT_APPLICABLE
+import subprocess as _sp
+# every commit of /repo whose subject contains `verif hooks` (feature-gated, add-only), oldest first
+HOOK_COMMITS = [l.split()[0] for l in _sp.run(['git', '-C', '/repo', 'log', '--reverse', '--format=%h %s'], capture_output=True, text=True).stdout.splitlines() if 'verif hooks' in l.lower()] or __import__('manifest_text').HOOK_COMMITS
 
 checks = []
 for pid in sorted(PROPS):
